@@ -79,52 +79,52 @@ func c07EndToEnd(t *testing.T, tier string) (map[string]int, []report.Viol) {
 			// by its neighbour's through UpdateSubscription - routing must follow the
 			// CURRENT filter of the subscription, whatever it was before
 			for round := 0; round < 2; round++ {
-			shift := 0
-			if round == 1 {
-				shift = len(fs)/2 + 1
-				for fi := range fs {
-					nf := fs[(fi+shift)%len(fs)]
-					if _, err := w.Sub.UpdateSubscription(ctx, &pubsubpb.UpdateSubscriptionRequest{
-						Subscription: &pubsubpb.Subscription{Name: fmt.Sprintf("projects/p/subscriptions/g%df%d", gi, fi), Filter: nf.Render(filt.Style{Dash: true})},
-						UpdateMask:   &fieldmaskpb.FieldMask{Paths: []string{"filter"}}}); err != nil {
-						viols = append(viols, report.Viol{Property: "C07", Check: "C07/end-to-end", Rule: "valid-filter-rejected", Text: fmt.Sprintf("UpdateSubscription with valid filter failed: %v", err), Trace: []string{nf.Render(filt.Style{Dash: true})}})
+				shift := 0
+				if round == 1 {
+					shift = len(fs)/2 + 1
+					for fi := range fs {
+						nf := fs[(fi+shift)%len(fs)]
+						if _, err := w.Sub.UpdateSubscription(ctx, &pubsubpb.UpdateSubscriptionRequest{
+							Subscription: &pubsubpb.Subscription{Name: fmt.Sprintf("projects/p/subscriptions/g%df%d", gi, fi), Filter: nf.Render(filt.Style{Dash: true})},
+							UpdateMask:   &fieldmaskpb.FieldMask{Paths: []string{"filter"}}}); err != nil {
+							viols = append(viols, report.Viol{Property: "C07", Check: "C07/end-to-end", Rule: "valid-filter-rejected", Text: fmt.Sprintf("UpdateSubscription with valid filter failed: %v", err), Trace: []string{nf.Render(filt.Style{Dash: true})}})
+						}
 					}
-				}
-				if _, err := w.Pub.Publish(ctx, req); err != nil {
-					t.Fatal(err)
-				}
-				stats["publishes"] += len(maps)
-			}
-			for fi, f0 := range fs {
-				f := fs[(fi+shift)%len(fs)]
-				_ = f0
-				got := map[int]bool{}
-				for {
-					resp, err := w.Sub.Pull(ctx, &pubsubpb.PullRequest{Subscription: fmt.Sprintf("projects/p/subscriptions/g%df%d", gi, fi), MaxMessages: 1000, ReturnImmediately: true})
-					if err != nil {
+					if _, err := w.Pub.Publish(ctx, req); err != nil {
 						t.Fatal(err)
 					}
-					if len(resp.ReceivedMessages) == 0 {
-						break
+					stats["publishes"] += len(maps)
+				}
+				for fi, f0 := range fs {
+					f := fs[(fi+shift)%len(fs)]
+					_ = f0
+					got := map[int]bool{}
+					for {
+						resp, err := w.Sub.Pull(ctx, &pubsubpb.PullRequest{Subscription: fmt.Sprintf("projects/p/subscriptions/g%df%d", gi, fi), MaxMessages: 1000, ReturnImmediately: true})
+						if err != nil {
+							t.Fatal(err)
+						}
+						if len(resp.ReceivedMessages) == 0 {
+							break
+						}
+						for _, rm := range resp.ReceivedMessages {
+							var v map[string]int
+							json.Unmarshal(rm.Message.Data, &v)
+							got[v["i"]] = true
+						}
 					}
-					for _, rm := range resp.ReceivedMessages {
-						var v map[string]int
-						json.Unmarshal(rm.Message.Data, &v)
-						got[v["i"]] = true
+					stats["pulls"]++
+					for mi, m := range maps {
+						want := f.Eval(m, filt.DontCare)
+						if want == filt.DontCare {
+							continue
+						}
+						stats["deliveries_decided"]++
+						if got[mi] != (want == filt.True) {
+							viols = append(viols, report.Viol{Property: "C07", Check: "C07/end-to-end", Rule: "filter-routing", Text: fmt.Sprintf("subscription with filter %q (round %d): message with attributes %v received=%v, documented semantics say %v", f.Render(filt.Style{}), round, m, got[mi], want == filt.True), Trace: []string{f.Render(filt.Style{}), fmt.Sprint(m)}})
+						}
 					}
 				}
-				stats["pulls"]++
-				for mi, m := range maps {
-					want := f.Eval(m, filt.DontCare)
-					if want == filt.DontCare {
-						continue
-					}
-					stats["deliveries_decided"]++
-					if got[mi] != (want == filt.True) {
-						viols = append(viols, report.Viol{Property: "C07", Check: "C07/end-to-end", Rule: "filter-routing", Text: fmt.Sprintf("subscription with filter %q (round %d): message with attributes %v received=%v, documented semantics say %v", f.Render(filt.Style{}), round, m, got[mi], want == filt.True), Trace: []string{f.Render(filt.Style{}), fmt.Sprint(m)}})
-					}
-				}
-			}
 			}
 		}
 	})
